@@ -14,7 +14,7 @@ A *package spec* is a dict
 * loop      - 0: no DoWhile; 1: a one-stage DoWhile document imported at stage 1 (components add, fake_add, stop);
               2: a two-stage DoWhile document (`stop` lives in the second loop stage)
 * bp        - 1: additionally the blueprint of platform P (global scope) and the blueprint of `default` (stage scope)
-              define the SAME option (resourceRequest.numberThreads); only generated for loop>0 and platform P
+              define the SAME option (resourceRequest.numberThreads); only generated for loop>0, platform P, uv none/two
 """
 import copy
 import itertools
